@@ -9,21 +9,21 @@ namespace Generated.AdaptAttrInventory
 /-- (function, parameters, exits (kind, value, guards), called names) -/
 def adaptFunctions : List (String × List String × List (String × String × List String) × List String) := [
   ("adapt_node", ["node", "proto", "source_version", "target_version", "var_names"],
-   [("return", "None", ["v2 == v3"]), ("return", "None", ["<except ValueError>"]), ("return", "v7", [])],
+   [("return", "None", ["p2 == p3"]), ("return", "None", ["<except ValueError>"]), ("return", "list(onnx.version_converter.convert_version(onnx.helper.make_model(onnx.helper.make_graph([p1], 'spox__singleton_adapter_graph', list({p4[b1]: b1.unwrap_type().", [])],
    ["from_array", "input_info.values", "isinstance", "list", "node.inputs.get_vars", "node.inputs.get_vars().items", "node.outputs.get_vars", "node.outputs.get_vars().items", "onnx.checker.check_model", "onnx.helper.make_graph", "onnx.helper.make_model", "onnx.helper.make_operatorsetid", "onnx.version_converter.convert_version", "set", "var.unwrap_type", "var.unwrap_type()._to_onnx_value_info"]),
   ("_initializers_to_constants", ["graph"],
-   [("return", "", ["not v2"])],
+   [("return", "", ["not [onnx.helper.make_node('Constant', [], [b0.name], value=b0) for b0 in p0.initializer if b0.name not in {b1.name for b1 in p0.input}]"])],
    ["graph.node.extend", "list", "onnx.helper.make_node"]),
   ("adapt_inline", ["node", "protos", "target_opsets", "var_names", "node_name"],
-   [("return", "v1", ["not v7 & {'', 'ai.onnx'}"]), ("return", "v11", ["v6 != v5"]), ("return", "v1", [])],
+   [("return", "p1", ["not {b0.domain for b0 in p1} & {'', 'ai.onnx'}"]), ("return", "p0.to_onnx(Scope.of((p0, p4), *p3.items()))", ["max({b0.version for b0 in p0.model.opset_import if b0.domain in ('', 'ai.onnx')}, default=p2['']) != p2['']"]), ("return", "p1", [])],
    ["Scope.of", "_initializers_to_constants", "max", "node.to_onnx", "onnx.version_converter.convert_version", "var_names.items"]),
   ("adapt_best_effort", ["node", "protos", "opsets", "var_names", "node_names"],
-   [("return", "adapt_inline(v0, v1, v2, v3, v4[v0])", ["isinstance(v0, _Inline)"]), ("return", "None", ["isinstance(v0, _InternalNode) or len(v1) != 1"]), ("return", "None", ["any((isinstance(v14, AttrGraph) for v14 in v0.attrs.get_fields().values()))"]), ("return", "None", ["not v10"]), ("return", "None", ["v5.domain not in ('', 'ai.onnx')"]), ("return", "v11", [])],
+   [("return", "adapt_inline(p0, p1, p2, p3, p4[p0])", ["isinstance(p0, _Inline)"]), ("return", "None", ["isinstance(p0, _InternalNode) or len(p1) != 1"]), ("return", "None", ["any((isinstance(b0, AttrGraph) for b0 in p0.attrs.get_fields().values()))"]), ("return", "None", ["not b0"]), ("return", "None", ["b0.domain not in ('', 'ai.onnx')"]), ("return", "adapt_node(p0, b2, max({b1 for b0, b1 in p0.opset_req if b0 == (b2.domain if b2.domain != 'ai.onnx' else '')}), p2[b2.domain if b2.domain != 'ai.onnx' else ''],", [])],
    ["RuntimeWarning", "SCHEMAS.get", "SCHEMAS.get(domain, {}).get", "SCHEMAS.get(domain, {}).get(source_version, {}).get", "SCHEMAS.get(domain, {}).get(target_version, {}).get", "adapt_inline", "adapt_node", "any", "isinstance", "len", "max", "node.attrs.get_fields", "node.attrs.get_fields().values", "warnings.warn"])
 ]
 
 /-- exits of `adapt_inline` alone (what `CustomInline.decide` models) -/
-def adaptInlineExits : List (String × String × List String) := [("return", "v1", ["not v7 & {'', 'ai.onnx'}"]), ("return", "v11", ["v6 != v5"]), ("return", "v1", [])]
+def adaptInlineExits : List (String × String × List String) := [("return", "p1", ["not {b0.domain for b0 in p1} & {'', 'ai.onnx'}"]), ("return", "p0.to_onnx(Scope.of((p0, p4), *p3.items()))", ["max({b0.version for b0 in p0.model.opset_import if b0.domain in ('', 'ai.onnx')}, default=p2['']) != p2['']"]), ("return", "p1", [])]
 
 /-- (class, bases, methods defined in the class body, class-level assignments, raise sites) -/
 def attrClasses : List (String × List String × List String × List (String × String) × List String) := [
@@ -60,7 +60,7 @@ def attrClasses : List (String × List String × List String × List (String × 
 ]
 
 /-- exits of `_utils.dtype_to_tensor_type` (the validation `AttrDtype._validate` delegates to) -/
-def dtypeExits : List (String × String × List String) := [("raise", "TypeError(v1)", ["v0 is None"]), ("raise", "TypeError(v1)", ["<except ValueError>"]), ("raise", "TypeError(\"`np.dtype('object')` is not supported as a tensor", ["v2 == np.dtype(object)"]), ("return", "onnx.TensorProto.STRING", ["not (v2 == np.dtype(object))", "v2 == np.dtype(str)"]), ("return", "onnx.helper.np_dtype_to_tensor_dtype(v2)", ["<try>"]), ("raise", "TypeError(v1)", ["<except (KeyError, ValueError)>"])]
+def dtypeExits : List (String × String × List String) := [("raise", "TypeError(f'{p0} is not a valid ONNX tensor element type.')", ["p0 is None"]), ("raise", "TypeError(f'{p0} is not a valid ONNX tensor element type.')", ["<except ValueError>"]), ("raise", "TypeError(\"`np.dtype('object')` is not supported as a tensor", ["np.dtype(np.dtype(p0).type) == np.dtype(object)"]), ("return", "onnx.TensorProto.STRING", ["not (np.dtype(np.dtype(p0).type) == np.dtype(object))", "np.dtype(np.dtype(p0).type) == np.dtype(str)"]), ("return", "onnx.helper.np_dtype_to_tensor_dtype(np.dtype(np.dtype(p0).type))", ["<try>"]), ("raise", "TypeError(f'{p0} is not a valid ONNX tensor element type.')", ["<except (KeyError, ValueError)>"])]
 
 /-- the sources of slotting (statements, self = v0, locals alpha-renamed): what `len(inputs)` counts
     (`BaseVars._flatten/__iter__/__len__`), the minima (`Node.min_input/min_output`,
